@@ -97,6 +97,8 @@ def generate(seed, tier):
         block['exo'] = [[rn(v), t_] for v, t_ in block['exo']]
         case['block'] = block
         case['clash_name'] = new_name
+    case['knobs']['run_how'] = S['swarm'].choice(['steps', 'steps', 'main', 'main_twice', 'steps_then_main', 'steps_then_main_twice'])
+    case['knobs']['by_hand'] = S['swarm'].randint(1, 3)
     if S['swarm'].random() < 0.12:
         # a small sweep budget configured on the generator: the emitted module must either converge within it or refuse
         # loudly - never hand back the unconverged iterate
@@ -240,6 +242,21 @@ def execute(case):
             obj = ns['SFCModel']()
             phase = 'run'
             steps = 0
+            how = (case.get('knobs') or {}).get('run_how', 'steps')
+            if how in ('steps_then_main', 'steps_then_main_twice'):
+                # a few periods stepped by hand, the rest through the module's own main(); a second main() on a finished
+                # model has nothing left to do
+                for _ in range(min(int((case.get('knobs') or {}).get('by_hand', 1)), obj.MaxTime)):
+                    obj.RunOneStep()
+                obj.main()
+                if how == 'steps_then_main_twice':
+                    obj.main()
+                steps = obj.STEP
+            elif how in ('main', 'main_twice'):
+                obj.main()
+                if how == 'main_twice':
+                    obj.main()
+                steps = obj.STEP
             while obj.STEP < obj.MaxTime:
                 obj.RunOneStep()
                 steps += 1
